@@ -287,12 +287,16 @@ impl Poly {
             // A=D^2 so it is faster to reduce D rather than A.
             if dinv == 0 {
                 // For very small integers, we may select D inside the factor base.
-                // In this case the roots are the roots of Bx-abs(C) (C < 0)
+                // In this case the roots are the roots of Bx+C
+                // (usually C < 0 but tiny inputs can have C > 0).
                 let b = div.mod_uint(&self.b);
                 let binv = inv.invert(b as u32, &div) as u64;
-                debug_assert!(self.c.is_negative());
                 let c = div.mod_uint(&self.c.abs().to_bits());
-                let r = shift(div.divmod64(c * binv).1 as u32);
+                let mut r = div.divmod64(c * binv).1 as u32;
+                if !self.c.is_negative() && r != 0 {
+                    r = p - r;
+                }
+                let r = shift(r);
                 (r, r)
             } else {
                 let d2inv = div.modu63(dinv as u64 * dinv as u64);
